@@ -1,6 +1,201 @@
-//! C06 — not implemented yet.
+//! C06 — determinants are correct and the inverse functions really invert.
+
+use vek::mat::repr_c::column_major as cm;
+use vek::mat::repr_c::row_major as rm;
+use vkit::gens;
+use vkit::refmath as rf;
+use vkit::vk::{self, MatN};
 use vkit::*;
 
+fn no_zero_and_asym<S: Dom, const N: usize>(a: &[[S; N]; N], upto: usize) -> bool {
+    let mut ok = true;
+    for i in 0..upto {
+        for j in 0..upto {
+            if a[i][j].is_zero() {
+                ok = false;
+            }
+        }
+    }
+    ok && *a != rf::transpose(a)
+}
+
+macro_rules! det_case {
+    ($fname:ident, $N:expr, $Mat:ident) => {
+        fn $fname<S: Dom>(t: &mut Tape, cx: &mut Cx) -> CaseResult {
+            const N: usize = $N;
+            let a: [[S; N]; N] = vk::gen_mat(t, 9);
+            let b: [[S; N]; N] = vk::gen_mat(t, 9);
+            cx.set_nontrivial(no_zero_and_asym(&a, N));
+            sample!(cx, "{} n={} A={:?} B={:?}", S::NAME, N, a, b);
+            let (ra, ca) = (rm::$Mat::<S>::from_arr(&a), cm::$Mat::<S>::from_arr(&a));
+            let (rb, cb) = (rm::$Mat::<S>::from_arr(&b), cm::$Mat::<S>::from_arr(&b));
+            let da = rf::det(&a);
+            let db = rf::det(&b);
+            let ma = vk::mat_max(&a).max(1.0);
+            let mb = vk::mat_max(&b).max(1.0);
+            let sc = 24.0 * ma.powi(N as i32);
+            check_close!(cx, S, ra.determinant(), da, sc, 16, "row-major determinant vs Leibniz");
+            check_close!(cx, S, ca.determinant(), da, sc, 16, "col-major determinant vs Leibniz");
+            check_close!(cx, S, ra.transposed().determinant(), da, sc, 16, "row-major det(A^T)");
+            check_close!(cx, S, ca.transposed().determinant(), da, sc, 16, "col-major det(A^T)");
+            check_close!(cx, S, rm::$Mat::<S>::from(ca).determinant(), da, sc, 16, "det after layout change (col->row)");
+            check_close!(cx, S, cm::$Mat::<S>::from(ra).determinant(), da, sc, 16, "det after layout change (row->col)");
+            let sc2 = 24.0 * 24.0 * (N as f64 * ma * mb).powi(N as i32);
+            check_close!(cx, S, (ra * rb).determinant(), da * db, sc2, 64, "row-major det(AB) = det A det B");
+            check_close!(cx, S, (ca * cb).determinant(), da * db, sc2, 64, "col-major det(AB) = det A det B");
+            Ok(())
+        }
+    };
+}
+det_case!(det2, 2, Mat2);
+det_case!(det3, 3, Mat3);
+det_case!(det4, 4, Mat4);
+
+fn check_two_sided<S: Dom>(cx: &mut Cx, what: &str, m: &[[S; 4]; 4], inv: &[[S; 4]; 4], reference: &[[S; 4]; 4], k: f64) -> CaseResult {
+    let id: [[S; 4]; 4] = rf::identity();
+    let sc_inv = vk::mat_max(reference).max(1.0);
+    let sc = 4.0 * vk::mat_max(m).max(1.0) * sc_inv;
+    check_mat!(cx, S, *inv, *reference, sc_inv * sc, k, "{} equals the adjugate/determinant inverse", what);
+    check_mat!(cx, S, rf::matmul(m, inv), id, sc * sc, k, "{}: M * inv(M) = I", what);
+    check_mat!(cx, S, rf::matmul(inv, m), id, sc * sc, k, "{}: inv(M) * M = I", what);
+    Ok(())
+}
+
+/// General inverse on arbitrary invertible matrices.
+fn inverse_general<S: Dom>(t: &mut Tape, cx: &mut Cx) -> CaseResult {
+    let mut a: [[S; 4]; 4] = if S::EXACT || t.bool() {
+        vk::gen_mat(t, 9)
+    } else {
+        // integer matrices: |det| >= 1 when non-singular, keeps float conditioning under control
+        let mut m = [[S::zero(); 4]; 4];
+        for i in 0..4 {
+            for j in 0..4 {
+                m[i][j] = S::i(t.int(-5, 5));
+            }
+        }
+        m
+    };
+    if t.chance(40) {
+        // an affine last row, a common special case
+        a[3] = [S::zero(), S::zero(), S::zero(), S::one()];
+    }
+    let d = rf::det(&a);
+    if S::EXACT {
+        if d.is_zero() {
+            discard!("precondition:det=0");
+        }
+    } else if d.f().abs() < 0.5 {
+        discard!("precondition:|det|<0.5 (float conditioning)");
+    }
+    let reference = rf::inverse(&a).unwrap();
+    cx.set_nontrivial(no_zero_and_asym(&a, 3));
+    sample!(cx, "{} M={:?} det={:?}", S::NAME, a, d);
+    let (r, c) = (rm::Mat4::<S>::from_arr(&a), cm::Mat4::<S>::from_arr(&a));
+    let k = 4096.0;
+    check_two_sided(cx, "row-major inverted()", &a, &r.inverted().to_arr(), &reference, k)?;
+    check_two_sided(cx, "col-major inverted()", &a, &c.inverted().to_arr(), &reference, k)?;
+    let mut r2 = r;
+    r2.invert();
+    check_eq!(cx, r2.to_arr(), r.inverted().to_arr(), "row-major invert() == inverted()");
+    let mut c2 = c;
+    c2.invert();
+    check_eq!(cx, c2.to_arr(), c.inverted().to_arr(), "col-major invert() == inverted()");
+    // products computed by vek itself, both orders, both layouts
+    let id: [[S; 4]; 4] = rf::identity();
+    let sc = 16.0 * vk::mat_max(&a).max(1.0).powi(2) * vk::mat_max(&reference).max(1.0).powi(2);
+    check_mat!(cx, S, (r * r.inverted()).to_arr(), id, sc, k, "row-major M * M.inverted()");
+    check_mat!(cx, S, (c.inverted() * c).to_arr(), id, sc, k, "col-major M.inverted() * M");
+    Ok(())
+}
+
+/// Rigid fast inverse on rotation+translation matrices.
+fn inverse_rigid<S: Dom>(t: &mut Tape, cx: &mut Cx) -> CaseResult {
+    let a = gens::rigid4::<S>(t);
+    let reference = rf::inverse(&a).unwrap();
+    cx.set_nontrivial(no_zero_and_asym(&a, 3));
+    sample!(cx, "{} rigid M={:?}", S::NAME, a);
+    let (r, c) = (rm::Mat4::<S>::from_arr(&a), cm::Mat4::<S>::from_arr(&a));
+    let k = 4096.0;
+    check_two_sided(cx, "row-major inverted_affine_transform_no_scale()", &a, &r.inverted_affine_transform_no_scale().to_arr(), &reference, k)?;
+    check_two_sided(cx, "col-major inverted_affine_transform_no_scale()", &a, &c.inverted_affine_transform_no_scale().to_arr(), &reference, k)?;
+    // agreement with the general inverse and the scale-aware affine inverse
+    let sc = vk::mat_max(&reference).max(1.0) * vk::mat_max(&a).max(1.0) * 8.0;
+    check_mat!(cx, S, r.inverted_affine_transform_no_scale().to_arr(), r.inverted().to_arr(), sc, k, "row-major rigid inverse agrees with inverted()");
+    check_mat!(cx, S, c.inverted_affine_transform_no_scale().to_arr(), c.inverted().to_arr(), sc, k, "col-major rigid inverse agrees with inverted()");
+    check_mat!(cx, S, r.inverted_affine_transform().to_arr(), reference, sc, k, "row-major affine inverse on a rigid matrix");
+    check_mat!(cx, S, c.inverted_affine_transform().to_arr(), reference, sc, k, "col-major affine inverse on a rigid matrix");
+    let mut r2 = r;
+    r2.invert_affine_transform_no_scale();
+    check_eq!(cx, r2.to_arr(), r.inverted_affine_transform_no_scale().to_arr(), "row-major invert_affine_transform_no_scale() == returning form");
+    let mut c2 = c;
+    c2.invert_affine_transform_no_scale();
+    check_eq!(cx, c2.to_arr(), c.inverted_affine_transform_no_scale().to_arr(), "col-major invert_affine_transform_no_scale() == returning form");
+    Ok(())
+}
+
+/// Affine fast inverse on translation*rotation*scale matrices (scales of either sign, 2^-10..2^10).
+fn inverse_trs<S: Dom>(t: &mut Tape, cx: &mut Cx) -> CaseResult {
+    let (a, s) = gens::trs4::<S>(t);
+    let reference = rf::inverse(&a).unwrap();
+    let nonuniform = s[0] != s[1] || s[1] != s[2];
+    cx.set_nontrivial(no_zero_and_asym(&a, 3) && nonuniform);
+    if s.iter().any(|x| *x < S::zero()) {
+        cx.label("negative-scale");
+    }
+    if s.iter().any(|x| x.f().abs() < 0.01) {
+        cx.label("small-scale");
+    }
+    sample!(cx, "{} TRS M={:?} scale={:?}", S::NAME, a, s);
+    let (r, c) = (rm::Mat4::<S>::from_arr(&a), cm::Mat4::<S>::from_arr(&a));
+    let k = 16384.0;
+    check_two_sided(cx, "row-major inverted_affine_transform()", &a, &r.inverted_affine_transform().to_arr(), &reference, k)?;
+    check_two_sided(cx, "col-major inverted_affine_transform()", &a, &c.inverted_affine_transform().to_arr(), &reference, k)?;
+    let sc = vk::mat_max(&reference).max(1.0).powi(2) * vk::mat_max(&a).max(1.0).powi(2) * 8.0;
+    check_mat!(cx, S, r.inverted_affine_transform().to_arr(), r.inverted().to_arr(), sc, k, "row-major affine inverse agrees with inverted()");
+    check_mat!(cx, S, c.inverted_affine_transform().to_arr(), c.inverted().to_arr(), sc, k, "col-major affine inverse agrees with inverted()");
+    let mut r2 = r;
+    r2.invert_affine_transform();
+    check_eq!(cx, r2.to_arr(), r.inverted_affine_transform().to_arr(), "row-major invert_affine_transform() == returning form");
+    let mut c2 = c;
+    c2.invert_affine_transform();
+    check_eq!(cx, c2.to_arr(), c.inverted_affine_transform().to_arr(), "col-major invert_affine_transform() == returning form");
+    Ok(())
+}
+
 pub fn property() -> Property {
-    Property { id: "C06", rule: "", assumptions: &[], checks: Vec::new(), max_discard_frac: 0.2 }
+    let mut checks = Vec::new();
+    macro_rules! tape {
+        ($name:expr, $about:expr, $len:expr, $q:expr, $th:expr, $f:expr) => {
+            checks.push(Check { name: $name, about: $about, kind: Kind::Tape { len: $len, quick: $q, thorough: $th, f: $f } });
+        };
+    }
+    let d = "determinant (both layouts) vs Leibniz permutation expansion; det(A^T) = det A; det unchanged by layout conversion; det(AB) = det A det B";
+    tape!("det2-rat", d, 32, 40_000, 800_000, det2::<Rat>);
+    tape!("det3-rat", d, 64, 40_000, 800_000, det3::<Rat>);
+    tape!("det4-rat", d, 96, 40_000, 800_000, det4::<Rat>);
+    tape!("det2-f64", d, 64, 20_000, 400_000, det2::<f64>);
+    tape!("det3-f64", d, 128, 20_000, 400_000, det3::<f64>);
+    tape!("det4-f64", d, 224, 20_000, 400_000, det4::<f64>);
+    tape!("det4-f32", d, 224, 20_000, 400_000, det4::<f32>);
+    let g = "Mat4::inverted/invert on matrices with det != 0: equals adjugate/det, M*inv = inv*M = I (reference product and vek's own product), both layouts";
+    tape!("inverse-general-rat", g, 64, 60_000, 1_500_000, inverse_general::<Rat>);
+    tape!("inverse-general-f64", g, 160, 30_000, 600_000, inverse_general::<f64>);
+    let r = "inverted_affine_transform_no_scale (+ in-place) on rotation+translation matrices: two-sided inverse, equal to inverted() and to the scale-aware affine inverse";
+    tape!("inverse-rigid-rat", r, 32, 60_000, 1_500_000, inverse_rigid::<Rat>);
+    tape!("inverse-rigid-f64", r, 48, 30_000, 600_000, inverse_rigid::<f64>);
+    let s = "inverted_affine_transform (+ in-place) on T*R*S matrices with scales of either sign in [2^-10, 2^10]: two-sided inverse, equal to inverted()";
+    tape!("inverse-trs-rat", s, 48, 60_000, 1_500_000, inverse_trs::<Rat>);
+    tape!("inverse-trs-f64", s, 64, 30_000, 600_000, inverse_trs::<f64>);
+    Property {
+        id: "C06",
+        rule: "generated matrices with small rational / float entries (general), rational rotations from integer quaternions times translation (rigid), times per-axis scale of either sign (TRS); singular matrices are discarded and counted; non-trivial = no zero entry in the upper-left 3x3 (whole matrix for determinants), A != A^T, and non-uniform scale for TRS; distinct = distinct consumed tape prefix",
+        assumptions: &[
+            "rustc and the proptest runner/shrinker are trusted",
+            "vkit::refmath: Leibniz determinant and adjugate inverse on plain arrays are the oracles",
+            "float domains: matrices with |det| >= 0.5 only, tolerance k*eps*scale with scale derived from the magnitudes of M and inv(M)",
+            "the epsilon substitution branch of the affine inverse (negligibly small scales) is outside the property and is not exercised",
+        ],
+        checks,
+        max_discard_frac: 0.25,
+    }
 }
